@@ -36,6 +36,7 @@ From GoCoap Require Import Base.Bytes Dedup.Model Server.Model Server.Proofs Ser
 From GoCoap Require Monitor.Model Monitor.Spec Monitor.Proofs.
 From GoCoap Require Import Server.KeepAlive Server.KeepAliveProofs.
 From GoCoap Require Import Server.Addr Server.AddrProofs Server.TokenKey Server.TokenKeyProofs.
+From GoCoap Require Import Server.OptGrow Server.OptGrowProofs.
 Import ListNotations.
 Open Scope Z_scope.
 
@@ -561,3 +562,64 @@ Example C10_token_key_instance :
   /\ told_apart_b TokenKey.crc64 [[18; 52]; [0; 18; 52]; [0; 0; 0; 0; 0; 0; 18; 52]] = true
   /\ told_apart_b packed_key [[18; 52]; [0; 18; 52]] = false.
 Proof. vm_compute. repeat split; reflexivity. Qed.
+
+(* ------------------------------------------------------------------ *)
+(* Round 4: the decode loop between a received message and the connection *)
+(* ------------------------------------------------------------------ *)
+(* message/pool Message.decode (behind UnmarshalWithDecoder, i.e. behind udp/client Conn.Process -- inside the
+   ONE read loop of the udp server -- and tcp/client Session.processBuffer) retries the coder with a larger
+   option table while it reports ErrOptionsTooSmall.  Server/OptGrow.v models the option table WITH its
+   capacity ([unmarshal_opts_cap], [udp_decode_cap]: Options.Unmarshal reports "too small" when the table is
+   full) and the loop ([retry_loop] with the code's [grow] = max(16, 2*cap)).  Model.v's [udp_decode], which
+   all theorems above use, keeps the options in an unbounded list; (i) is the justification. *)
+
+(* (i) "never deadlocks": for EVERY datagram and every capacity the pooled message starts with, the loop ends
+   within 2 + ceil(log2 len) attempts, with exactly what the unbounded decoder returns (ErrOptionsTooSmall never
+   reaches the connection) *)
+Theorem C10_decode_loop_terminates : forall data cap0 fuel, 0 <= cap0 -> (attempts_bound (blen data) <= fuel)%nat ->
+  snd (pool_decode fuel cap0 data) = Some (udp_decode data).
+Proof. exact pool_decode_terminates. Qed.
+Print Assumptions C10_decode_loop_terminates.
+
+Theorem C10_decode_loop_attempts : forall data cap0 fuel, 0 <= cap0 ->
+  (length (fst (pool_decode fuel cap0 data)) <= attempts_bound (blen data))%nat.
+Proof. exact pool_decode_attempts. Qed.
+Print Assumptions C10_decode_loop_attempts.
+
+(* (ii) what a peer can make the server allocate: no table of the loop has more slots than
+   max(16, 2 * len(datagram)), or than the pooled message already had *)
+Theorem C10_decode_loop_memory_bounded : forall data cap0 fuel,
+  Forall (fun c => c <= Z.max cap0 (Z.max 16 (2 * blen data))) (fst (pool_decode fuel cap0 data)).
+Proof. exact pool_decode_caps_bounded. Qed.
+Print Assumptions C10_decode_loop_memory_bounded.
+
+(* (iii) the same for ANY coder that honours the contract "a table of [need] slots is enough, and a result other
+   than too-small does not depend on the capacity" (the tcp coder calls the same Options.Unmarshal:
+   [unmarshal_cap_enough], [unmarshal_cap_sound]) *)
+Theorem C10_decode_loop_any_coder : forall (A : Type) (dec : Z -> cres A) (full : dres A) (need : Z),
+  (forall cap, need <= cap -> dec cap = CR full) -> (forall cap r, dec cap = CR r -> r = full) ->
+  forall cap0 fuel, 0 <= cap0 -> (attempts_bound need <= fuel)%nat ->
+  snd (retry_loop grow dec fuel cap0) = Some full.
+Proof. exact retry_loop_terminates. Qed.
+Print Assumptions C10_decode_loop_any_coder.
+
+Theorem C10_options_table_contract : forall fuel data prev acc processed cap,
+  (blen acc + blen data <= cap ->
+   unmarshal_opts_cap cap fuel data prev acc processed = CR (unmarshal_opts fuel data prev acc processed)) /\
+  (forall r, unmarshal_opts_cap cap fuel data prev acc processed = CR r -> unmarshal_opts fuel data prev acc processed = r).
+Proof.
+  intros. split; [apply unmarshal_cap_enough|intros r H; exact (unmarshal_cap_sound _ _ _ _ _ _ _ H)].
+Qed.
+Print Assumptions C10_options_table_contract.
+
+(* contrast (NOT the code): growth with a ceiling of 1024 slots and the same unconditional retry never returns
+   for a datagram of 1100 empty options -- whatever number of attempts is allowed; the code's loop decodes it in
+   9 attempts (0, 16, ..., 1024, 2048) *)
+Theorem C10_capped_growth_would_spin : forall fuel,
+  snd (retry_loop (grow_capped 1024) (fun cap => udp_decode_cap cap (flood 1100)) fuel 0) = None.
+Proof. exact capped_growth_spins. Qed.
+Print Assumptions C10_capped_growth_would_spin.
+
+Example C10_decode_loop_instance :
+  pool_decode 20 0 (flood 1100) = ([0; 16; 32; 64; 128; 256; 512; 1024; 2048], Some (udp_decode (flood 1100))).
+Proof. exact flood_1100_decoded. Qed.
